@@ -19,7 +19,9 @@ def step (line : String) : String :=
   | ["bes", h, t] => match ofHex? h, ofHex? t with
     | some b, some tl => s!"{showU (ofBytesBE b)} data={hex b} tail={hex tl}"
     | _, _ => "bad-op"
-  | ["big", d] => match parseDec? d.toList with | some n => showU (ofBig n) | none => "bad-op"
+  | ["big", d] => match parseDec? d.toList with
+    | some n => s!"{showU (ofBig n)} src={n}"   -- the source number is still what it was
+    | none => "bad-op"
   | ["json", d] => match unmarshal? d.toList with | some u => showU u | none => "err"
   | ["cmp", a, b] => match ofHex? a, ofHex? b with
     | some x, some y => toString (compare (ofBytesLE x) (ofBytesLE y))
